@@ -238,6 +238,8 @@ func (operation *Operation) Validate(ctx context.Context, opts ...ValidationOpti
 			if err := v.Validate(ctx); err != nil {
 				return fmt.Errorf("invalid callback %s: %w", name, err)
 			}
+		} else if v != nil && v.Value == nil {
+			return fmt.Errorf("invalid callback %s: %w", name, foundUnresolvedRef(v.Ref))
 		}
 	}
 
